@@ -2451,6 +2451,11 @@ impl StorageEngine {
         loop {
             thread::sleep(Duration::from_secs(1)); // Check every second
             
+            #[cfg(feature = "verif-hooks")]
+            crate::verif_hooks::point(crate::verif_hooks::SWEEP_BEGIN, 0);
+            #[cfg(feature = "verif-hooks")]
+            let mut verif_shard_no: u64 = 0;
+            
             for database in &engine.databases {
                 let now = Instant::now();
                 
@@ -2468,8 +2473,14 @@ impl StorageEngine {
                         }
                     }
                     
+                    #[cfg(feature = "verif-hooks")]
+                    { verif_shard_no += 1; }
+                    
                     // Remove expired keys with write lock
                     if !expired_keys.is_empty() {
+                        #[cfg(feature = "verif-hooks")]
+                        crate::verif_hooks::point(crate::verif_hooks::SWEEP_BETWEEN, verif_shard_no - 1);
+                        
                         let mut shard_guard = shard.write().unwrap();
                         for key in expired_keys {
                             if let Some(stored_value) = shard_guard.data.remove(&key) {
@@ -2485,8 +2496,113 @@ impl StorageEngine {
                     }
                 }
             }
+            
+            #[cfg(feature = "verif-hooks")]
+            crate::verif_hooks::point(crate::verif_hooks::SWEEP_END, 0);
         }
     }
+}
+
+#[cfg(feature = "verif-hooks")]
+impl StorageEngine {
+    /// Canonical text of everything stored in one database: per shard the keys in sorted order with
+    /// value, remaining time to the stored deadline (ns, negative = past) and the expiry-index entry.
+    /// Stream ids with millis >= ms_base are printed relative to ms_base. The watch tracker is left out.
+    pub fn verif_raw_dump(&self, db: DatabaseIndex, ms_base: u64) -> String {
+        let mut out = String::new();
+        let database = match self.databases.get(db) { Some(d) => d, None => return out };
+        let now = Instant::now();
+        let rel = |t: Instant| -> i128 {
+            if t >= now { (t - now).as_nanos() as i128 } else { -((now - t).as_nanos() as i128) }
+        };
+        for (idx, shard) in database.shards.iter().enumerate() {
+            let guard = shard.read().unwrap();
+            if guard.data.is_empty() && guard.expiring_keys.is_empty() { continue; }
+            out.push_str(&format!("shard {}:\n", idx));
+            let mut keys: Vec<&Key> = guard.data.keys().collect();
+            keys.sort();
+            for key in keys {
+                let sv = &guard.data[key];
+                let val = match &sv.value {
+                    Value::String(b) => format!("string {:?}", b),
+                    Value::List(l) => format!("list {:?}", l),
+                    Value::Set(s) => { let mut v: Vec<&Vec<u8>> = s.iter().collect(); v.sort(); format!("set {:?}", v) }
+                    Value::Hash(h) => { let mut v: Vec<(&Vec<u8>, &Vec<u8>)> = h.iter().collect(); v.sort(); format!("hash {:?}", v) }
+                    Value::SortedSet(z) => {
+                        let items: Vec<(Vec<u8>, u64)> = z.get_all_items().into_iter().map(|(m, s)| (m, s.to_bits())).collect();
+                        format!("zset len={} {:?}", z.len(), items)
+                    }
+                    Value::Stream(s) => s.verif_dump(ms_base),
+                };
+                let exp = match sv.metadata.expires_at { Some(t) => format!("{}", rel(t)), None => "-".to_string() };
+                let idxe = match guard.expiring_keys.get(key) { Some(t) => format!("{}", rel(*t)), None => "-".to_string() };
+                out.push_str(&format!("  {:?} = {} exp={} idx={}\n", key, val, exp, idxe));
+            }
+            let mut orphans: Vec<&Key> = guard.expiring_keys.keys().filter(|k| !guard.data.contains_key(*k)).collect();
+            orphans.sort();
+            for k in orphans {
+                out.push_str(&format!("  orphan-index {:?} idx={}\n", k, rel(guard.expiring_keys[k])));
+            }
+        }
+        out
+    }
+    
+    /// Expiry-index agreement: every indexed key has the same stored deadline, every key with a deadline is indexed
+    pub fn verif_check_expiry_index(&self) -> std::result::Result<(), String> {
+        for (db, database) in self.databases.iter().enumerate() {
+            for shard in &database.shards {
+                let guard = shard.read().unwrap();
+                for (k, t) in guard.expiring_keys.iter() {
+                    match guard.data.get(k) {
+                        Some(sv) if sv.metadata.expires_at == Some(*t) => {}
+                        Some(sv) => return Err(format!("db {} key {:?}: index deadline {:?} but stored {:?}", db, k, t, sv.metadata.expires_at)),
+                        None => return Err(format!("db {} key {:?}: index entry without a key", db, k)),
+                    }
+                }
+                for (k, sv) in guard.data.iter() {
+                    if sv.metadata.expires_at.is_some() && !guard.expiring_keys.contains_key(k) {
+                        return Err(format!("db {} key {:?}: deadline stored but not indexed", db, k));
+                    }
+                }
+            }
+        }
+        Ok(())
+    }
+    
+    /// (active watchers of the key's shard, the key's modification counter)
+    pub fn verif_watch_state(&self, db: DatabaseIndex, key: &[u8]) -> (usize, u64) {
+        match self.get_shard(db, key) {
+            Ok(shard) => {
+                let guard = shard.read().unwrap();
+                (guard.watch_tracker.active_watchers.load(std::sync::atomic::Ordering::SeqCst),
+                 guard.watch_tracker.get_key_counter(key))
+            }
+            Err(_) => (0, 0),
+        }
+    }
+    
+    /// Reset every shard's watch tracker (watcher count, counters). Only for use *between* histories.
+    pub fn verif_reset_watch_trackers(&self) {
+        for database in &self.databases {
+            for shard in &database.shards {
+                let guard = shard.write().unwrap();
+                guard.watch_tracker.active_watchers.store(0, std::sync::atomic::Ordering::SeqCst);
+                guard.watch_tracker.global_counter.store(0, std::sync::atomic::Ordering::SeqCst);
+                guard.watch_tracker.key_counters.write().unwrap().clear();
+            }
+        }
+    }
+    
+    /// Shard index of a key
+    pub fn verif_shard_of(&self, key: &[u8]) -> usize {
+        self.get_shard_index(key)
+    }
+}
+
+/// The key-pattern matcher used by KEYS/SCAN, exposed for exhaustive comparison
+#[cfg(feature = "verif-hooks")]
+pub fn verif_glob(pattern: &str, text: &str) -> bool {
+    pattern_matches(pattern, text)
 }
 
 impl Database {
